@@ -502,7 +502,14 @@ class Arith:
         bits = pow2_bits(b)
         if not bits:
           return a
-        return a + z3.Sum([z3.If(bit_of(a, i), z3.IntVal(0), z3.IntVal(2**i)) for i in bits])
+        val = a + z3.Sum([z3.If(bit_of(a, i), z3.IntVal(0), z3.IntVal(2**i)) for i in bits])
+        # flag words: name the result and state the bit-level definition of `|` for bits 0..15
+        # next to its arithmetic value, so that bit tests on the result are propositional
+        r = self.ex.fresh("bitor", "int")
+        self.ex.assume(r == val)
+        for j in range(16):
+          self.ex.assume(bit_of(r, j) == (z3.BoolVal(True) if j in bits else bit_of(a, j)))
+        return r
       return uf("bitor", z3.IntSort(), z3.IntSort(), z3.IntSort())(lift(a), lift(b))
     if t is ast.BitXor:
       return uf("bitxor", z3.IntSort(), z3.IntSort(), z3.IntSort())(lift(a), lift(b))
